@@ -480,7 +480,8 @@ def main(argv):
         for b in bad[:5]:
             ctx.disagreement("composed Lean model HashClient∘Client with broadcasts (flush_all / quit / close) differs from the real HashClient", b,
                              theorem="C13_hash_broadcast_bookkeeping_error_iff")
-    # composed model HashClient ∘ PooledClient ∘ Client (Pymc/Model/HashPooledCall.lean): the same on the real HashClient(use_pooling=True)
+    # composed model HashClient ∘ PooledClient ∘ Client (Pymc/Model/HashPooledCall.lean, HashPooledCallMany.lean): the same on the real
+    # HashClient(use_pooling=True), single-key calls and get_many / gets_many / set_many / delete_many
     # (result, server, PooledClient invoked, inner client, socket used, bookkeeping state, every registered pool)
     if ctx.lean.build_ok:
         import hashpooledcall_diff
@@ -488,7 +489,7 @@ def main(argv):
         ctx.count("composed-hashpooled-model-calls", ncalls)
         for b in bad[:5]:
             ctx.disagreement("composed Lean model HashClient∘PooledClient∘Client differs from the real HashClient(use_pooling=True)", b,
-                             theorem="C13_hashpooled_projection")
+                             theorem="C13_hashpooled_many_projection" if b.get("multi") else "C13_hashpooled_projection")
     ctx.extra["explored_op_steps"] = total_states
     ctx.assumptions = ["time is an integer number of ticks, constant during one public call", "'failing' = raising OSError (other errors do not mark a server)",
                        "routing is abstracted to a preference order (the rendezvous choice over the remaining set is C11/C12)"]
